@@ -299,3 +299,34 @@ func vhC13Threads() {
 	verifAssert(calls <= 1, "C13/callback-invoked-at-most-once")
 	verifCover("C13/Threads/ran")
 }
+
+// Two goroutines subscribe to the same, so far unused, event type at the same time
+// (LOCKSCHED=1); an event of that type dispatched afterwards reaches both callbacks.
+func vhC13ThreadsSub() {
+	c := (&Client{}).NewConnection(&http.Request{Method: "GET", Header: http.Header{}})
+	var nmu sync.Mutex
+	calls := [2]int{}
+	mk := func(i int) EventCallback {
+		return func(Event) {
+			if !verifSymbolic() {
+				nmu.Lock()
+				defer nmu.Unlock()
+			}
+			calls[i]++
+		}
+	}
+	kinds := verifChoose("kinds", 2) // 0: both typed on "t"; 1: one typed, one subscribe-to-all
+	verifGo(func() { c.SubscribeEvent("t", mk(0)) })
+	verifGo(func() {
+		if kinds == 0 {
+			c.SubscribeEvent("t", mk(1))
+		} else {
+			c.SubscribeToAll(mk(1))
+		}
+	})
+	unfinished := verifRunThreads(verifParam("STEPS", 200))
+	verifAssert(unfinished == 0, "C13/Threads/no-deadlock")
+	c.dispatch(Event{Type: "t"})
+	verifAssert(calls[0] == 1 && calls[1] == 1, "C13/active-matching-callback-invoked-exactly-once")
+	verifCover("C13/Threads/ran")
+}
